@@ -98,9 +98,13 @@ class LoopInfo:
         self.uid, self.kind, self.iter, self.elem, self.init, self.node = uid, kind, iter_sym, elem, init, node
         self.paths = []          # list of State (events = events of this iteration only)
         self.carried = []
+        self.foreign = {}        # key 'name@frame' -> (frame id, name): variables of the function whose `for` drives this loop
 
     def next_of(self, name):
         """values of a carried variable after one iteration, one per body path that goes round again"""
+        if name in self.foreign:
+            fid, n = self.foreign[name]
+            return [p.envs[fid].get(n) if fid in p.envs else None for p in self.paths if p.status in ('run', 'continue')]
         return [p.lookup_frame0(name) for p in self.paths if p.status in ('run', 'continue')]
 
 
@@ -120,6 +124,9 @@ class State:
         self.depth = 0
         self.inlining = ()
         self.loop0 = None        # frame id in which a loop body started (for LoopInfo.next_of)
+        self.handlers = ()       # `for … in <generator followed in place>`: what runs at each of its yields
+        self.unwind_to = None    # a return / raise of such a loop body: the frame whose function it leaves
+        self.genstop = None      # a break of such a loop body: the handler it stops
 
     def fork(self):
         s = State()
@@ -130,6 +137,7 @@ class State:
         s.ctx, s.status, s.value = self.ctx, self.status, self.value
         s.exc_frame, s.exc_info, s.tries = self.exc_frame, self.exc_info, self.tries
         s.depth, s.inlining, s.loop0 = self.depth, self.inlining, self.loop0
+        s.handlers, s.unwind_to, s.genstop = self.handlers, self.unwind_to, self.genstop
         return s
 
     def frame(self, fid):
@@ -1046,20 +1054,40 @@ class Exec:
             info.init[n] = cur
             env[n] = ('phi', uid, n)
         info.carried = sorted(carried_names)
+        if st.handlers and node is not None and any(isinstance(n, (ast.Yield, ast.YieldFrom)) for n in ast.walk(node)):
+            # the body of the `for` that consumes this generator runs at the yields: its variables are carried round as well
+            for h in st.handlers:
+                fr = body.envs.get(h['frame'])
+                if fr is None:
+                    continue
+                for n in sorted(h['names']):
+                    key = f"{n}@{h['frame']}"
+                    sv = st.cur
+                    st.cur = h['frame']
+                    info.init[key] = self.lookup(st, n)
+                    st.cur = sv
+                    fr[n] = ('phi', uid, key)
+                    info.foreign[key] = (h['frame'], n)
+                    info.carried.append(key)
         paths = body_runner(body, info)
         info.paths = paths
         out = []
         ev_loop = st.emit('loop', info, node=node)
         for p in paths:
-            if p.status in ('return', 'raise', 'exc'):
+            if p.status in ('return', 'raise', 'exc', 'genstop'):
                 # leaves the enclosing function from inside the loop
                 o = st.fork()
                 o.events[-1] = ev_loop
                 o.emit('loopexit', info, p, node=node)
                 o.status, o.value, o.exc_frame, o.exc_info = p.status, p.value, p.exc_frame, p.exc_info
+                o.unwind_to, o.genstop = p.unwind_to, p.genstop
                 out.append(o)
         for n in carried_names:
             st.envs[st.cur][n] = ('loopout', uid, n)
+        for key, (fid, n) in info.foreign.items():
+            for o in [st] + out:
+                if fid in o.envs:
+                    o.envs[fid][n] = ('loopout', uid, key)
         return [st] + out, info
 
     def st_For(self, s, st):
@@ -1067,6 +1095,13 @@ class Exec:
         for x, it in self.ev(s.iter, st):
             if x.status != 'run':
                 out.append(x)
+                continue
+            sts = self.generator_for(s, x, it)
+            if sts is not None:
+                if s.orelse:
+                    run = [y for y in sts if y.status == 'run']
+                    sts = [y for y in sts if y.status != 'run'] + self.block(s.orelse, run)
+                out += sts
                 continue
             it2 = self.iter_sentinel(it)
             if it2 is not None:
@@ -1113,6 +1148,68 @@ class Exec:
         return out
 
     st_AsyncFor = st_For
+
+    def generator_for(self, s, x, it):
+        """`for T in gen(…): BODY` with a generator function that can be followed: the generator's body is executed in place
+        and BODY runs (in this frame) at each of its yields.  Returns the resulting states, or None to treat the loop as opaque."""
+        start = None
+        target, idx = s.target, None
+        call = it
+        if it[0] == 'call' and it[2] == ('name', 'enumerate') and len(it[3]) == 1 and isinstance(s.target, ast.Tuple) and len(s.target.elts) == 2:
+            kw = dict(it[4])
+            if set(kw) <= {'start'} and (not kw or (kw['start'][0] == 'const' and type(kw['start'][1]) is int)):
+                start = kw['start'][1] if kw else 0
+                idx, target = s.target.elts
+                call = it[3][0]
+        if not (call[0] == 'call' and call[2][0] in ('func', 'method')):
+            return None
+        tgt = self.callee(call[2], x)
+        if tgt is None or not is_generator(tgt[0]) or tgt[0].name in self.mod.no_inline or x.frame(tgt[2]) is None:
+            return None
+        if any(a[0] == 'star' for a in call[3]) or any(k == '**' for k, _ in call[4]):
+            return None
+        h = {'uid': new_uid(), 'target': target, 'idx': idx, 'start': start, 'body': s.body, 'frame': x.cur, 'node': s,
+             'names': assigned_names(s.body) | assigned_names([s.target])}
+        probe = x.fork()
+        probe.handlers = probe.handlers + (h,)
+        self._gen_ok = True
+        try:
+            res = self.inline(tgt, call[2], call[3], call[4], probe, s)
+        except Unsupported:
+            res = None
+        finally:
+            self._gen_ok = False
+        if res is None:
+            return None
+        out = []
+        for y, _v in res:
+            y.handlers = tuple(hh for hh in y.handlers if hh['uid'] != h['uid'])
+            if y.status == 'genstop' and y.genstop == h['uid']:
+                y.status, y.genstop = 'run', None
+            out.append(y)
+        return out
+
+    def run_handler(self, x, v, n):
+        """a yield of a generator that is being followed for a `for` loop: bind the target and run the loop body"""
+        h = x.handlers[-1]
+        gen_cur = x.cur
+        x.handlers = x.handlers[:-1]
+        x.cur = h['frame']
+        if h['idx'] is not None:
+            self.assign(h['idx'], ('enumidx', h['uid'], h['start']), x, h['node'])
+        self.assign(h['target'], v, x, h['node'])
+        out = []
+        for y in self.block(h['body'], [x]):
+            y.handlers = y.handlers + (h,)
+            if y.status in ('run', 'continue'):
+                y.status = 'run'
+            elif y.status == 'break':
+                y.status, y.genstop = 'genstop', h['uid']
+            elif y.status in ('return', 'raise') and y.unwind_to is None:
+                y.unwind_to = h['frame']
+            y.cur = gen_cur if y.frame(gen_cur) is not None else y.cur
+            out.append(y)
+        return out
 
     def iter_sentinel(self, it):
         if it[0] == 'call' and it[2] == ('name', 'iter') and len(it[3]) == 2 and not it[4]:
@@ -1311,6 +1408,9 @@ class Exec:
     def ev_Yield(self, n, st):
         out = []
         for x, v in (self.ev(n.value, st) if n.value is not None else [(st, ('const', None))]):
+            if x.status == 'run' and x.handlers:
+                out += [(y, ('unknown', new_uid())) for y in self.run_handler(x, v, n)]
+                continue
             if x.status == 'run':
                 x.emit('yield', v, node=n)
             out.append((x, ('unknown', new_uid())))
@@ -1330,11 +1430,15 @@ class Exec:
             return [(x, ('unknown', new_uid())) if x.status != 'run' else self._yield_star(x, v, n) for x, v in res]
         for x, v in self.ev(n.value, st):
             if x.status == 'run':
+                if x.handlers:
+                    raise Unsupported('yield from a value, inside a followed generator')
                 x.emit('yield', ('star', v), node=n)
             out.append((x, ('unknown', new_uid())))
         return out
 
     def _yield_star(self, x, v, n):
+        if x.handlers:
+            raise Unsupported('delegation to a generator that cannot be followed, inside a followed generator')
         x.emit('yield', ('star', v), node=n)
         return (x, ('unknown', new_uid()))
 
@@ -1559,7 +1663,7 @@ class Exec:
             for y in callee_exec.block(node.body, [x]):
                 if y.status == 'run':
                     y.status, y.value = 'return', ('const', None)
-                if y.status == 'return':
+                if y.status == 'return' and y.unwind_to is None:
                     val = y.value
                     y.status, y.value = 'run', None
                     y.emit('inline-exit', node.name, uid, val, node=callnode)
@@ -1571,7 +1675,9 @@ class Exec:
                     y.cur = y.stack.pop()
                 y.ctx = tuple(fr for fr in y.ctx if not (fr[0] == 'inline' and fr[1] == uid))
                 y.depth, y.inlining = saved[2], saved[3]
-                if y.status == 'raise' and saved[4]:
+                if y.unwind_to is not None and y.cur == y.unwind_to:
+                    y.unwind_to = None        # back in the function that the loop body returned from / raised in
+                if y.status == 'raise' and saved[4] and y.unwind_to is None:
                     y.status, y.exc_frame, y.exc_info = 'exc', saved[4][-1], callnode
                 out.append((y, val))
         return out
